@@ -233,6 +233,10 @@ pub fn compute_baseline(pool: &BTreeMap<String, String>, dir: &str) -> Result<(B
     }
     let mut jobs: Vec<(String, String)> = vec![];
     for n in pool.keys() {
+        if n.starts_with("blank_") {
+            // white-space-only placeholders: present in directories as siblings, never judged themselves
+            continue;
+        }
         for c in CATS {
             for p in defaults(c) {
                 jobs.push((n.clone(), p.label()));
@@ -938,6 +942,19 @@ fn gen_op_dir(rng: &mut Rng, names: &[String], focus: &[String]) -> Op {
                 }
             }
         }
+        // blank placeholder siblings (eligible names, nothing but white space inside)
+        let mut pats = pats;
+        if rng.chance(1, 6) {
+            for _ in 0..rng.range(1, 3) {
+                let dir = rng.pick(&dirs);
+                let shown = *rng.pick(&["Empty.sol", "0.sol", "Zplaceholder.sol", "Interface.sol", "a.sol"]);
+                let path = format!("{}/{}", dir, shown);
+                if !tree.iter().any(|(p, _)| crate::world::base_name(p) == shown) && path != "" {
+                    tree.push((path, format!("blank_{}.sol", rng.below(3))));
+                }
+            }
+            pats.retain(|p| gen::blank_tolerant(*p));
+        }
         let mut w = World::new("/d");
         for (p, _) in &tree {
             w.put_file(p, vec![], Fault::None);
@@ -1110,6 +1127,11 @@ pub fn gen_pool(seed: u64, n: usize) -> BTreeMap<String, String> {
             pool.insert("deepmany.sol".to_string(), t);
         }
     }
+    // white-space-only placeholder files (not screened: version-dependent detectors abort on them;
+    // they only ever appear as siblings in directory operations restricted to tolerant patterns)
+    for (i, t) in ["\n\n\n", "  \n\t\n \n\n\n\n\n", "\n"].iter().enumerate() {
+        pool.insert(format!("blank_{}.sol", i), t.to_string());
+    }
     for (k, depth) in [10usize, 18, 26, 32].iter().enumerate() {
         let t = deep_text(*depth, k);
         if screen.ok(&t) {
@@ -1155,7 +1177,7 @@ pub fn chain_main(ctx: &Ctx, dir: &str, index: u64) -> i32 {
         Ok(x) => x,
         Err(_) => return 2,
     };
-    let names: Vec<String> = pool.keys().cloned().collect();
+    let names: Vec<String> = pool.keys().filter(|k| !k.starts_with("blank_")).cloned().collect();
     let mut rng = Rng::new(stream_seed(ctx.seed, "C15", index));
     // most chains are short; every eighth one is long, so that bounded caches and counters inside
     // the process see many more distinct (file, number) combinations than they can hold
